@@ -1,6 +1,6 @@
 (* Operation interface of the `codec` correspondence stream for frames and varints. *)
 From Coq Require Import List ZArith NArith Bool.
-From GQ Require Export Model.Frames.
+From GQ Require Export Model.Frames Model.Admission.
 Import ListNotations.
 Local Open Scope Z_scope.
 
@@ -160,6 +160,13 @@ Definition codec_step (t : N) (args : list Z) : list Z :=
       | FErr e => [1; ferr_code e]
       | FPanic s => [2; Z.of_N s]
       end
+  (* 7 capacity sid off len : StreamFrame::encoding_strategy ; 8 capacity sid off : StreamFrame::estimate_max_capacity ;
+     9 capacity off : CryptoFrame::estimate_max_capacity *)
+  | 7%N, [cap; sid; off; len] =>
+      match encoding_strategy cap sid off len with Some (e, pad) => [0; b2z e; pad] | None => [-7] end
+  | 8%N, [cap; sid; off] => match stream_estimate cap sid off with Some n => [1; n] | None => [0] end
+  | 9%N, [cap; off] =>
+      match crypto_estimate cap off with Some (Some n) => [1; n] | Some None => [0] | None => [-9] end
   | _, _ => [-99]
   end.
 
